@@ -12,7 +12,7 @@ Driver family `timer` (C16).
 
 Script: operations separated by `;`, fields by `,`.  The first character of a session operation is
 the session (`a` | `b`):
-  `aS,<k>,<idhex|->,<targethex|->,<delay>,<v|c<n>>`   send event `k`; payload = current x, or constant n
+  `aS,<k>,<idhex|->,<targethex|->,<delay>,<v|l|c<n>>` send event `k`; payload = current x, the array [x] by location, or constant n
   `aC,<idhex>`   cancel        `aA,<n>`   x := n        `aX`   session thread ends     `aZ`   its timer sees Stop
   `T,<t>`        time passes to `t` and both timer threads run (session a first)
 Reply: `k:payload:time:via:sess,…` (or `.`) then ` pend=<a>,<b> err=<a>,<b>`.
@@ -20,14 +20,17 @@ Reply: `k:payload:time:via:sess,…` (or `.`) then ` pend=<a>,<b> err=<a>,<b>`.
 namespace Driver.Timer
 open Rfsm Rfsm.Wire Rfsm.Timer
 
-abbrev Ev := Nat × Nat   -- (event number, payload)
+abbrev Ev := Nat × Bool × Nat   -- (event number, payload is the array `arr` taken by location, payload value)
+
+/-- `arr = [x]` taken by `<param location>` shares its element with the datamodel -/
+def evDeref : Nat → Ev → Ev := fun d e => if e.2.1 then (e.1, true, d) else e
 
 structure W where
   w : World Nat Ev
   /-- deliveries of both sessions in the order they were made: (session, delivery) -/
   glog : List (Nat × Delivery Ev)
 
-def W.init : W := ⟨⟨Timer.init 0, Timer.init 0⟩, []⟩
+def W.init : W := ⟨⟨Timer.initWith evDeref 0, Timer.initWith evDeref 0⟩, []⟩
 
 def newDeliveries (before after : List (Delivery Ev)) : List (Delivery Ev) := after.drop before.length
 
@@ -59,8 +62,9 @@ def stepText (s : W) (t : String) : Option W :=
       match k.toNat?, optHex id, optHex tg, parseInt? d with
       | some k, some id, some tg, some d =>
         let mk : Option (Nat → Ev) :=
-          if pl = "v" then some (fun x => (k, x))
-          else if pl.startsWith "c" then ((pl.drop 1).toString.toNat?).map (fun n => fun _ => (k, n))
+          if pl = "v" then some (fun x => (k, false, x))
+          else if pl = "l" then some (fun x => (k, true, x))
+          else if pl.startsWith "c" then ((pl.drop 1).toString.toNat?).map (fun n => fun _ => (k, false, n))
           else none
         match mk with
         | some mk => sessStep s h.front (.send id (tg.getD []) d mk)
@@ -87,7 +91,8 @@ def runScript (script : String) : Option W :=
   (script.splitOn ";").foldl (fun acc t => acc.bind (fun s => stepText s t)) (some W.init)
 
 def showDelivery (p : Nat × Delivery Ev) : String :=
-  s!"{p.2.entry.event.1}:{p.2.entry.event.2}:{p.2.time}:{if p.2.viaTimer then 1 else 0}:{p.1}"
+  let pl := if p.2.seen.2.1 then s!"[{p.2.seen.2.2}]" else toString p.2.seen.2.2
+  s!"{p.2.entry.event.1}:{pl}:{p.2.time}:{if p.2.viaTimer then 1 else 0}:{p.1}"
 
 def showRun (s : W) : String :=
   (if s.glog.isEmpty then "." else ",".intercalate (s.glog.map showDelivery)) ++
